@@ -43,6 +43,12 @@ def gen_c16(rng: random.Random, sid: str, thorough: bool) -> dict:
     sc['steps'] = [s for s in out if not (s['op'] == 'query' and s.get('copies', 1) > 1)] if False else out
     for s in sc['steps']:
         s.pop('copies', None)
+    # socket layouts: one IPv4 socket, listen + respond sockets, or the dual-stack set (IPv6 listen socket reporting 4-tuple
+    # addresses; peers then are IPv6 hosts or IPv4 hosts seen as v4-mapped addresses)
+    sc['layout'] = rng.choice(['single', 'split', 'dual', 'dual'])
+    sc['v6src'] = sc['layout'] == 'dual' and rng.random() < 0.7
+    # the copy follows in the same instant or a few milliseconds later (nothing else is delivered in between)
+    sc['dup_gap'] = rng.choice([0, 0, 1, 3, 40, 700])
     return sc
 
 
